@@ -7,6 +7,7 @@ THEOREMS = [
     "C07.activation_group_once",
     "C07.focus_falls_back",
     "C07.fire_all_bounded_incremental",
+    "C07.fire_all_skips_terminate",
     "C07.fire_all_bounded_ul",
     "C07.fire_all_bounded_typed",
     "C07.typed_bound_attained",
@@ -60,7 +61,7 @@ def classify(case, impl, model, oracle, kind):
 
 LEVEL_TEXT = ("Lean 4 theorems (kernel-checked, unbounded: every agenda state / every history, every rule set and loop body) about an "
               "executable model of AdvancedAgenda and of the three fire_all loops: pop_is_max, drain_sorted, no_loop_once_between_resets, "
-              "activation_group_once, focus_falls_back, fire_all_bounded for IncrementalEngine (1000), ReteUlEngine (100 passes) and "
+              "activation_group_once, focus_falls_back, fire_all_bounded for IncrementalEngine (at most 1000 executed activations; skipped ones are not counted after fix-C06b and terminate by agenda size: fire_all_skips_terminate), ReteUlEngine (100 passes) and "
               "TypedReteUlEngine (100 passes, after fix-C07), and model_meets_spec for the observation-level predicates; tied to the Rust "
               "code by a correspondence check (model vs implementation after every call) and by evaluating the same Spec predicates on "
               "the implementation's observations.")
